@@ -21,6 +21,7 @@ from props import c01_common as C
 
 REGRESS = os.path.join(vlib.VERIF, "corpus", "mugo", "c01_regress.json")
 NOFLOW = os.path.join(vlib.VERIF, "corpus", "mugo", "c01_noflow.json")
+CRASH = os.path.join(vlib.VERIF, "corpus", "mugo", "c01_crash.json")
 EXTRA = ["fs=0,od=0,rw=0", "fs=1,od=1,rw=0"]          # source rewrites off
 
 
@@ -74,6 +75,36 @@ def run(chk):
     found_concrete = False
     distinct = set()
     all_misses = []          # (program name, scenario, bad specs)
+
+    # ---- a panic of the analysis hides every scenario of the program: isolate the scenario(s) that cause it (each reduced to
+    # a minimal single-scenario program, key crash:<atoms>), then judge the rest of the program without them
+    crash_keys = {}
+    for idx, (name, d, _) in enumerate(list(progs)):
+        pan = [r for r in results[name].get("runs", []) if r.get("panic")]
+        if not pan:
+            continue
+        crs = C.isolate_crashers(os.path.join(work, "crash-" + name), mans[name]["scenarios"], pan[0]["spec"],
+                                 timeout=(200 if tier == "quick" else 600))
+        for c in crs:
+            found_concrete = True
+            ent = crash_keys.setdefault(c["key"], dict(c, n=0, program=name, spec=pan[0]["spec"]))
+            ent["n"] += 1
+        if crs:
+            gone = set(c["scenario"]["id"] for c in crs)
+            keep = [C.strip_scen(sc) for sc in mans[name]["scenarios"] if sc["id"] not in gone]
+            d2 = d + "-nocrash"
+            mans[name] = C.mugo(d2, spec=keep)
+            hits[name], _p = C.native(d2)
+            results[name] = C.trun(d2, specs, timeout=(150 if tier == "quick" else 600))
+            progs[idx] = (name, d2, None)
+    for key, ent in sorted(crash_keys.items()):
+        rd = chk.replay_dir(key)
+        what = ("the taint analysis PANICS (%s) under %s on a program containing this scenario, so nothing is reported for the whole "
+                "program although its flows are observed natively; minimised from %s in program %s"
+                % (ent["panic"][:160], ent["spec"], C.scen_label(ent["scenario"]), ent["program"]))
+        C.write_program_replay(rd, ent["minimal"], [ent["spec"]], what)
+        chk.violation(key, what, rd)
+    stats["crashing_scenarios"] = sum(e["n"] for e in crash_keys.values())
     for name, d, _ in progs:
         res = results[name]
         man = mans[name]
@@ -111,7 +142,7 @@ def run(chk):
                 if not C.run_ok(r):
                     continue
                 stats["judgments"] += 1
-                rep = i in C.reported_ids(r)
+                rep = C.scen_reported(i, hits[name], r) if nat else (i in C.reported_ids(r))
                 if nat and rep:
                     stats["reported_ok"] += 1
                 elif not nat and not rep:
@@ -120,7 +151,8 @@ def run(chk):
                     stats["reported_not_observed"] += 1
         for s, r in runs.items():
             for p in r.get("pairs", []):
-                if p[2].replace("source", "") != p[3].replace("sink", ""):
+                a, b = p[2].replace("source", ""), p[3].replace("sink", "")
+                if a != b and not (a.isdigit() and b.isdigit() and int(a) == 5000 + int(b)):
                     stats["cross_pairs"] += 1
         ms = C.missed(man, hits[name], runs)
         stats["missed_scenarios"] += len(ms)
@@ -129,7 +161,7 @@ def run(chk):
         if len(chk.cov["samples"]) < 6 and man["scenarios"]:
             sc = man["scenarios"][len(chk.cov["samples"]) % len(man["scenarios"])]
             chk.sample({"program": name, "scenario": C.scen_label(sc), "native_flow": (sc["id"], sc["id"]) in hits[name],
-                        "reported": {s: sc["id"] in C.reported_ids(r) for s, r in runs.items()}})
+                        "reported": {s: C.scen_reported(sc["id"], hits[name], r) for s, r in runs.items()}})
 
     # ---- minimise and key the misses (one batch program per round for all of them)
     minimal_keys = {}
@@ -154,6 +186,34 @@ def run(chk):
                     "by the taint analysis under %s; minimised from %d generated scenario(s), e.g. %s in program %s"
                     % (", ".join(ent["bad"]), ent["n"], ent["example"], ent["program"]))
             C.write_program_replay(rd, ent["minimal"], ent["bad"], what)
+            chk.violation(key, what, rd)
+
+    # ---- committed crash scenarios (each in its own program: a panic hides everything else in the program)
+    crash_specs = json.load(open(CRASH)) if os.path.exists(CRASH) else []
+    stats["crash_corpus"] = len(crash_specs)
+    stats["crash_corpus_panicking"] = 0
+    cjobs = []
+    cat = None
+    for n, sc in enumerate(crash_specs):
+        d = os.path.join(work, "crashcorpus%d" % n)
+        C.mugo(d, spec=[C.strip_scen(sc, new_id=1)])
+        cjobs.append((n, dict(d=d, specs=["fs=0,od=0"], timeout=(150 if tier == "quick" else 600), retry=False)))
+    if cjobs:
+        cres = C.trun_many(cjobs)
+        cat = {(a["Kind"], a["Variant"]): a["Key"] for a in C.catalogue()["atoms"]}
+        for n, sc in enumerate(crash_specs):
+            ptxt = C._crash_of(cres[n])
+            if not ptxt:
+                continue
+            stats["crash_corpus_panicking"] += 1
+            found_concrete = True
+            key = "crash:" + "+".join(cat.get((a["kind"], a["variant"]), a["kind"] + ":" + a["variant"]) for a in sc["atoms"])
+            if key in crash_keys:
+                continue
+            rd = chk.replay_dir(key)
+            what = ("the taint analysis PANICS (%s) under fs=0,od=0 on the single-scenario program of the committed crash corpus: "
+                    "nothing is reported although the flow is observed natively" % ptxt[:160])
+            C.write_program_replay(rd, C.strip_scen(sc, new_id=1), ["fs=0,od=0"], what)
             chk.violation(key, what, rd)
 
     # ---- exit status tie (real CLI)
@@ -197,7 +257,8 @@ def run(chk):
                        "non-trivial = the scenario's marker is observed at its sink natively; distinct = distinct atom variants / "
                        "source shapes / sink wraps occurring in such scenarios")
     chk.cov["traces_validated_against_impl"] = stats["reported_ok"]
-    chk.cov["distribution"] = dict(stats, exit_tie=exit_stats, minimal_miss_keys={k: v["n"] for k, v in minimal_keys.items()})
+    chk.cov["distribution"] = dict(stats, exit_tie=exit_stats, minimal_miss_keys={k: v["n"] for k, v in minimal_keys.items()},
+                                   crash_keys={k: v["n"] for k, v in crash_keys.items()})
     if stale:
         chk.cov["stale_known_finding"] = stale
     chk.assumptions += [
